@@ -89,6 +89,18 @@ def run(ctx):
         # relative: 'now' is the reference, which a naive RELATIVE_BASE places in TIMEZONE
         stb = dict(st, RELATIVE_BASE=w)
         cases.append({"s": "now", "langs": ["en"], "settings": stb, "expect": expect_str(ex, off=off), "stratum": "relative"})
+        # relative phrase that names its own zone: same instant, expressed in TO_TIMEZONE (diagonal TO_TIMEZONE == TIMEZONE included)
+        for B2 in ([B] if B else []) + [A]:
+            try:
+                now = localize(tz_of(A), w)
+            except Exception:  # noqa
+                break
+            zname2, zoff2 = R.choice([("EST", -18000), ("+0200", 7200), ("UTC", 0)])
+            x = (now - dt.timedelta(hours=2)).astimezone(tz_of(B2))
+            isaw = aware is True or aware == "default"
+            st2 = dict(stb, TO_TIMEZONE=B2)
+            cases.append({"s": "2 hours ago " + zname2, "langs": ["en"], "settings": st2,
+                          "expect": expect_str(x.replace(tzinfo=None), off=str(int(x.utcoffset().total_seconds())) if isaw else "naive"), "stratum": "relative+zone"})
         # timestamp: the instant itself, expressed in TIMEZONE then TO_TIMEZONE
         secs = R.randint(10 ** 9, 2 * 10 ** 9)
         inst = dt.datetime.fromtimestamp(secs, dt.timezone.utc)
